@@ -144,7 +144,15 @@ func VerifC14Queue(h *verifrt.H) {
 	}
 	if h.Choose("op", 2) == 0 {
 		c := &caller{id: "new", ready: make(chan struct{}), done: make(chan struct{})}
-		q.enqueue(c)
+		// a retired queue (its last caller left; it is being dropped from the map) is empty
+		// and refuses new callers
+		if n == 0 && h.Bool("retired") {
+			q.retired = true
+			h.Assert(!q.enqueue(c) && len(q.callers) == 0 && !isClosed(c.ready), "retired-queue-takes-nobody")
+			h.Cover("end")
+			return
+		}
+		h.Assert(q.enqueue(c), "live-queue-accepts")
 		h.Assert(len(q.callers) == n+1 && q.callers[n] == c, "enqueue-at-tail")
 		h.Assert(isClosed(c.ready) == (n == 0), "enqueue-ready-iff-head")
 	} else {
@@ -153,8 +161,9 @@ func VerifC14Queue(h *verifrt.H) {
 		if k < 5 {
 			id = ids[k]
 		}
-		ok := q.remove(id)
+		ok, retired := q.remove(id)
 		h.Assert(ok == (k < n), "remove-reports-membership")
+		h.Assert(retired == (k < n && n == 1) && q.retired == retired, "retired-exactly-when-last-caller-left")
 		if k < n {
 			h.Assert(isClosed(pre[k].done), "removed-done-closed")
 			h.Assert(len(q.callers) == n-1, "remove-shrinks")
